@@ -134,6 +134,8 @@ def parseItem (s : String) : Option Item :=
     let a ← parseRat? a
     let sd ← (match sd with | "b" => some Side.buy | "s" => some Side.sell | _ => none)
     let t ← t.toInt?
+    -- the venues' epoch fields are unsigned (`u64` deserialisers): a negative time is no message (harness: same)
+    if t < 0 then none else
     some ⟨p, a, sd, t⟩
   | _ => none
 
@@ -323,6 +325,10 @@ def spec : Drv SpecSt where
         if !shapeOk p msg then (s, ["bad-op"]) else
         -- a message that names no market at all (heartbeat / empty batch) yields nothing
         if msg.items.isEmpty && (p.exch = .bitfinex || perItemSymbol p.exch) then (s, ["nev 0"]) else
+        -- a message on ANOTHER channel than the one the subscription kind is published under (only the venues
+        -- whose payload names its channel can send one: Okx `arg.channel`, Gateio `channel`, Bitmex `table`) is
+        -- not a message for a subscribed (market, kind): rejected, whatever market it names
+        if p.exch.readsChan && msg.chan ≠ venueChannel p then (s, ["nev 1", "err unidentifiable"]) else
         let symbol : Option Str :=
           if p.exch = .bitfinex then bitfinexSymbolOf s.confs msg.chanId else some msg.market
         match symbol with
